@@ -132,3 +132,22 @@ Proof.
   revert E. apply (summ_fuel (width f) (2 * N.to_nat (width f) + 1)); [assumption| |lia].
   right. split; [assumption|]. apply pot_bound. apply choose_facts. assumption.
 Qed.
+
+(* ParseCIDR accepts every well-formed entry *)
+Theorem parse_accepts_wellformed a :
+  match a with
+  | ACidr p => wf_prefix p
+  | AMapped b l => l <= 128 /\ b < 2 ^ 32
+  | ARange s e => ip_fam s = ip_fam e /\ ip_val s <= ip_val e /\ wf_ip e
+  end -> parse_addr a <> None.
+Proof.
+  destruct a as [p|b l|s e]; cbn [parse_addr].
+  - intros [H1 H2]. unfold wf_prefixb. apply N.leb_le in H1. apply N.ltb_lt in H2. rewrite H1, H2. discriminate.
+  - intros [H1 H2]. apply N.leb_le in H1. apply N.ltb_lt in H2. rewrite H1, H2. cbn [andb].
+    destruct (96 <=? l); discriminate.
+  - intros (Hf & Hle & Hw). destruct s as [s|s], e as [e|e]; try discriminate; unfold wf_ip in Hw; cbn [ip_val ip_fam width] in Hle, Hw.
+    + apply N.leb_le in Hle. pose proof Hw as Hw'. apply N.ltb_lt in Hw. rewrite Hle, Hw. cbn [andb].
+      apply summarize_fuel_ok; [apply N.leb_le; assumption|exact Hw'].
+    + apply N.leb_le in Hle. pose proof Hw as Hw'. apply N.ltb_lt in Hw. rewrite Hle, Hw. cbn [andb].
+      apply summarize_fuel_ok; [apply N.leb_le; assumption|exact Hw'].
+Qed.
